@@ -178,6 +178,9 @@ def merge_args_and_kwargs(
     :return: The dict of assigned keyword-arguments.
     """
     starting_index = 1 if ignore_first else 0
+    # a call that the function itself would reject (too many positional arguments, an argument given twice, an unknown
+    # keyword) is rejected when it is written symbolically as well
+    inspect.signature(function).bind(*([None] * starting_index), *args, **kwargs)
     all_kwargs = {
         name: arg
         for name, arg in zip(
